@@ -1565,7 +1565,7 @@ theorem armorDecode_eval (input s : Text) (k : ArmorKind) (spos epos rpos cpos :
       if crc24Encode (radix64Decode (substr s (rpos + 2) (cpos - rpos - 2))) = substr s (cpos + 1) 5
       then (k.type, radix64Decode (substr s (rpos + 2) (cpos - rpos - 2))) else (0, []) := by
   unfold armorDecode
-  simp only [h0, hs, h1, h2, h3, h4, h5, c1, c2, c3, ne_eq, not_true_eq_false, if_false, and_self,
+  simp only [h0, hs, h1, h2, h3, h4, h5, c1, Nat.le_of_lt c2, c3, ne_eq, not_true_eq_false, if_false, and_self,
     if_true, true_and]
   by_cases hc : crc24Encode (radix64Decode (substr s (rpos + 2) (cpos - rpos - 2))) = substr s (cpos + 1) 5
   · simp [hc]
@@ -1675,10 +1675,15 @@ theorem armor_rejects_foreign_checksum (type : Nat) (ht : type = 1 ∨ type = 2 
       (0, []) :=
   armor_rejects_bad_checksum type ht comment version data hd hne hc hv _ (crc24Encode_shape other) hbad
 
-/-- the library's decoder refuses the armor its encoder writes for an empty octet string (the
-    radix-64 text is empty, `rpos + 2 < cpos` fails): instance without headers -/
-theorem armor_empty_rejected :
-    armorDecode (armorEncode 1 [] none []) = (0, []) ∧ armorDecode (armorEncode 6 [] none []) = (0, []) := by
+/-- the armor of an EMPTY octet string (three line ends in a row, checksum `=twTO`) decodes to the
+    empty string (repair of finding F14: the body may be empty, `rpos + 2 ≤ cpos`): instances for the
+    four armor types, without headers, with a comment and with a version line.  (The general theorem
+    `armor_roundtrip` covers all non-empty data.) -/
+theorem armor_empty_roundtrip_instances :
+    armorDecode (armorEncode 1 [] none []) = (1, []) ∧ armorDecode (armorEncode 2 [] none []) = (2, []) ∧
+    armorDecode (armorEncode 5 [] none []) = (5, []) ∧ armorDecode (armorEncode 6 [] none []) = (6, []) ∧
+    armorDecode (armorEncode 1 "a comment".toList none []) = (1, []) ∧
+    armorDecode (armorEncode 6 "a comment".toList (some "v1".toList) []) = (6, []) := by
   decide
 
 
